@@ -84,7 +84,10 @@ def _get_ast_node_variables(node: ast.AST, aliases: Mapping) -> list[Variable]:
             todo.extend(ast.iter_child_nodes(node))
             continue
         name = _get_ast_node_name(node)
-        name = aliases.get(name, name)
+        # Aliases stand in for (quoted) names, which may be followed by
+        # attribute accesses: `x y`.values -> x_y.values -> "x y.values".
+        root, dot, attrs = name.partition(".")
+        name = aliases.get(name, f"{aliases[root]}{dot}{attrs}" if root in aliases else name)
         if isinstance(node, ast.Call):
             variables.append(Variable(name, roles=["callable"]))
             todo.extend(node.args)
